@@ -167,6 +167,7 @@
 ;@ghost db.sig (Array Str Bool)
 ;@ghost db.sigrow (Array Str SigRow)
 ;@ghost db.faults Int
+;@monotone db.faults
 (declare-datatypes ((SigRow 0)) (((mk.SigRow (SigRow.Amount Int) (SigRow.C_ Str) (SigRow.Id Str) (SigRow.E Str) (SigRow.S Str)))))
 (define-fun rowOf ((p cashu.Proof)) mint/storage.DBProof (mk.mint/storage.DBProof (cashu.Proof.Amount p) (cashu.Proof.Id p) (cashu.Proof.Secret p) (Yof (cashu.Proof.Secret p)) (cashu.Proof.C p) (cashu.Proof.Witness p) str.empty))
 (define-fun pendRowOf ((p cashu.Proof) (q Str)) mint/storage.DBProof (mk.mint/storage.DBProof (cashu.Proof.Amount p) (cashu.Proof.Id p) (cashu.Proof.Secret p) (Yof (cashu.Proof.Secret p)) (cashu.Proof.C p) (cashu.Proof.Witness p) q))
@@ -186,4 +187,16 @@
 
 ;@module ln
 ;@ghost ln.attempted (Array Str Bool)
+; the last answers of the backend (C05: postconditions are stated over them,
+; and hold for every value they can take)
+;@ghost ln.pay mint/lightning.PaymentStatus
+;@ghost ln.payerr Iface
+;@ghost ln.npay Int
+;@ghost ln.st mint/lightning.PaymentStatus
+;@ghost ln.sterr Iface
+;@ghost ln.nst Int
+;@ghost ln.qfaults Int
+;@monotone ln.qfaults ln.npay ln.nst
+(declare-fun grpc.code (Iface) Int)
+(assert (= (grpc.code nil.Iface) 0))
 (declare-fun ln.fee (Int) Int)
